@@ -323,6 +323,8 @@ contract(OM + "_repay_loans", props=["C11", "C01", "C02"], types={"loan_ids": "L
                             # only loans already attempted have been closed
                             ("closed_prefix", "forall(lambda k=Id: implies(closed_here(self, k), exists(lambda i=Int: 0 <= i and i < IDX and seq_at(candidate_loans, i).id == k)))"),
                             ("recorded_2", "forall(lambda i=Int: implies(0 <= i and i < len(loan_ids), let(lambda k=seq_at(loan_ids, i): closed_here(self, k))))")],
+                        # C11 (statement): "as far as funds allow" -- a loan that cannot be afforded does not end the attempts
+                        visits_all="every open loan of the acquired symbol is attempted, also after one could not be afforded",
                         modifies=ACC3 + ["content(self._ctx.loan_mgr._collateral_by_loan)", "GHOST.ledger", "every(Loan)", "content(loan_ids)"]),
                 1: dict(invariant=[("recorded_1", "forall(lambda k=Id: implies(k in order._loan_ids, old(k in order._loan_ids) or "
                                                   "exists(lambda i=Int: 0 <= i and i < IDX and i < len(loan_ids) and seq_at(loan_ids, i) == k)))"),
